@@ -616,7 +616,8 @@ def run(rep, model):
         n += 1
         DOPS, line0 = _where(model, name)
         try:
-            r = evaluate(model, b)
+            from ..core import with_budget
+            r = with_budget(lambda: evaluate(model, b))
         except (Undecided, Fork) as e:
             rep.undecided('R8', cons, str(e), DOPS)
             continue
